@@ -51,7 +51,7 @@ func main() {
 
 	// network ids: all chain-configuration facts the model needs are read from the real config
 	nets := []*netCfg{{name: "solo", id: config.NETWORK_ID_SOLO_NET}, {name: "polaris", id: config.NETWORK_ID_POLARIS_NET}, {name: "main", id: config.NETWORK_ID_MAIN_NET}}
-	chains := map[string]int{"solo": vf.N(20, 150), "polaris": vf.N(14, 110), "main": vf.N(6, 40)}
+	chains := map[string]int{"solo": vf.N(20, 300), "polaris": vf.N(14, 220), "main": vf.N(6, 80)}
 	blocks := vf.N(200, 400)
 	workers := 8
 	if vf.Thorough() {
